@@ -11,8 +11,8 @@ import (
 	"errors"
 	"fmt"
 	"io"
-	"strings"
 	"net"
+	"strings"
 	"sync"
 	"sync/atomic"
 	"syscall"
